@@ -52,6 +52,17 @@ static const uint8_t CONmtModeObj[CO_MODE_NUM] = {
     (  CO_NMT_ALLOWED )          /*!< objects in stop mode                   */
 };
 
+/*! \brief NMT COMMUNICATION OBJECTS WITH RUNTIME STATE
+*
+*    The type init function of these object entries start the corresponding
+*    service. They are initialized again during a communication reset.
+*/
+static const uint32_t CONmtComObj[3] = {
+    CO_DEV(0x1005, 0),           /*!< COB-ID SYNC message                    */
+    CO_DEV(0x1016, 0),           /*!< consumer heartbeat time                */
+    CO_DEV(0x1017, 0)            /*!< producer heartbeat time                */
+};
+
 /*! \brief NMT MODE ENCODING
 *
 *    This constant codes are used to encode the NMT state machine mode within
@@ -72,7 +83,9 @@ static const uint8_t CONmtModeCode[CO_MODE_NUM] = {
 void CONmtReset(CO_NMT *nmt, CO_NMT_RESET type)
 {
     CO_OBJ *store;
+    CO_OBJ *com;
     uint8_t nobootup = 1;
+    uint8_t idx;
     CO_ERR  err;
 
     ASSERT_PTR_FATAL(nmt);
@@ -107,14 +120,31 @@ void CONmtReset(CO_NMT *nmt, CO_NMT_RESET type)
         if (err != CO_ERR_NONE) {
             nmt->Node->Error = CO_ERR_LSS_LOAD;
         }
-        COLssInit(&nmt->Node->Lss, nmt->Node);
 #endif //USE_LSS
         COTmrClear(&nmt->Node->Tmr);
+#if USE_LSS
+        COLssInit(&nmt->Node->Lss, nmt->Node);
+#endif //USE_LSS
         CONmtInit(nmt, nmt->Node);
         COSdoInit(nmt->Node->Sdo, nmt->Node);
+#if USE_CSDO
+        COCSdoInit(nmt->Node->CSdo, nmt->Node);
+#endif
         COIfCanReset(&nmt->Node->If);
         COEmcyReset(&nmt->Node->Emcy, 1);
         COSyncInit(&nmt->Node->Sync, nmt->Node);
+        /* restart the services which are configured by communication
+         * objects: sync, heartbeat consumer and heartbeat producer
+         */
+        for (idx = 0; idx < 3; idx++) {
+            com = CODictFind(&(nmt->Node->Dict), CONmtComObj[idx]);
+            if (com != NULL) {
+                err = COObjInit(com, nmt->Node);
+                if (err != CO_ERR_NONE) {
+                    nmt->Node->Error = CO_ERR_OBJ_INIT;
+                }
+            }
+        }
         if (nobootup == 0) {
             CONmtBootup(nmt);
         }
